@@ -418,6 +418,8 @@ def run(ctx: Ctx) -> None:
 
 M = "plugins/manu.py"
 MUTANTS = [
+    ("chain-deduplicated", "plugins/manu.py", "        setup_chain = run_params.get(\"setup\", \"\").split()", "        setup_chain = run_params.objects(\"setup\")", "1"),
+    ("P-chain-split-on-space", "plugins/manu.py", "        setup_chain = run_params.get(\"setup\", \"\").split()", "        setup_chain = run_params.get(\"setup\", \"\").split(\" \")", None),
     ("worker-death-swallowed", "plugins/runner.py", "asyncio.wait_for(asyncio.gather(*to_traverse), self.job.timeout or None)", "asyncio.wait_for(asyncio.gather(*to_traverse, return_exceptions=True), self.job.timeout or None)", "8"),
     ("unset-default-overrides-generic", "intertest_setup.py", "        state_mode = vm_op_mode if vm_op_mode in setup_dict else op_mode\n        if state_mode not in setup_dict:", "        if vm_op_mode not in setup_dict:", "6"),
     ("P-unset-default-explicit", "intertest_setup.py", "        state_mode = vm_op_mode if vm_op_mode in setup_dict else op_mode\n        if state_mode not in setup_dict:", "        if vm_op_mode not in setup_dict and op_mode not in setup_dict:", None),
@@ -426,7 +428,7 @@ MUTANTS = [
     ("last-step-decides", M, "                if setup_func(config, \"0m%s\" % i) not in [None, 0]:\n                    # return 1 if at least one of the steps fails\n                    retcode = 1",
      "                status = setup_func(config, \"0m%s\" % i)\n                retcode = 0 if status in [None, 0] else 1", "1b"),
     ("stop-at-first-failure", M, "                LOG_UI.error(\"Use 'export AVOCADO_LOG_EARLY=1' for further details.\")\n                retcode = 1", "                LOG_UI.error(\"Use 'export AVOCADO_LOG_EARLY=1' for further details.\")\n                retcode = 1\n                break", "1e"),
-    ("sorted-chain", M, "setup_chain = run_params.objects(\"setup\")", "setup_chain = sorted(run_params.objects(\"setup\"))", "1"),
+    ("sorted-chain", M, "setup_chain = run_params.get(\"setup\", \"\").split()", "setup_chain = sorted(run_params.get(\"setup\", \"\").split())", "1"),
     ("exception-not-reported", M, "                LOG_UI.error(\"Use 'export AVOCADO_LOG_EARLY=1' for further details.\")\n                retcode = 1", "                LOG_UI.error(\"Use 'export AVOCADO_LOG_EARLY=1' for further details.\")", "1b"),
     ("incompatible-worker-breaks", IS, "            logging.warning(f\"Skipped incompatible worker {test_worker.id}\")\n            continue\n        elif len(nodes) > 1:", "            logging.warning(f\"Skipped incompatible worker {test_worker.id}\")\n            break\n        elif len(nodes) > 1:", "3"),
     ("step-dict-under-cmdline", IS, "            setup_dict = config[\"param_dict\"].copy()\n            setup_dict.update(param_dict)\n            setup_dict[\"vms\"] = test_object.suffix", "            setup_dict = param_dict.copy()\n            setup_dict.update(config[\"param_dict\"])\n            setup_dict[\"vms\"] = test_object.suffix", "2b"),
